@@ -4,7 +4,7 @@ LEVEL = "proof"
 # translator tie: coq/Gen/Gen_bits.v is regenerated from $VERIF_REPO on every run; coq/C14/GenEquiv.v re-proves
 # generated = model (Properties_gen.v)
 TRANSLATE = [("translate/kernels_bits.json", "coq/Gen/Gen_bits.v"),
-             # second batch (59 kernels): coq/C14/GenEquivB.v, Properties_genB.v
+             # second batch (64 kernels): coq/C14/GenEquivB.v, Properties_genB.v
              ("translate/kernels_bits2.json", "coq/Gen/Gen_bits2.v")]
 HARNESSES = [
     {"name": "main", "src": "harness.cpp", "flags": ["-O1", "-DTETL_ENABLE_CONTRACT_CHECKS=1"]},
